@@ -475,7 +475,7 @@ func (w *c18World) sanity(c *report.Ctx) {
 func c18() *report.Check {
 	return &report.Check{
 		Level: "exploration",
-		Rule: "every request of the generated space (7 methods x paths from every OpenAPI template by parameter substitution and spelling mutation x 3 bodies, built by net/http's request parser; plus URL objects with RawPath != Path) served by the real router with writes off and on, twice each (half of the worker processes set up the writable server first, half the read-only one), and under every iteration order of every kproapi map range met; after each request the canonical requests of its template are served again on the same servers (two-request histories) and the decision compared with the fresh servers' one; with writes off the canonical request of every operation with the database panicking / failing at every round trip; two requests in flight with writes off: every pair of {canonical request of each operation, one undefined-method request per template} under every interleaving of the two handler threads with at most 2 (thorough 3) preemptions at statement granularity of keyper/kproapi and keyper/kprapi (cooperative scheduler over sources instrumented with yield points); " +
+		Rule: "every request of the generated space (7 methods x paths from every OpenAPI template by parameter substitution and spelling mutation x 3 bodies, built by net/http's request parser; plus URL objects with RawPath != Path) served by the real router with writes off and on, twice each (half of the worker processes set up the writable server first, half the read-only one), and under every iteration order of every kproapi map range met; after each request the canonical requests of its template are served again on the same servers (two-request histories) and the decision compared with the fresh servers' one; the same after requests to paths of the service outside the document (/api.json, /metrics, /); with writes off the canonical request of every operation with the database panicking / failing at every round trip; two requests in flight with writes off: every pair of {canonical request of each operation, one undefined-method request per template} under every interleaving of the two handler threads with at most 2 (thorough 3) preemptions at statement granularity of keyper/kproapi and keyper/kprapi (cooperative scheduler over sources instrumented with yield points); " +
 			"oracles: writes off => no receive on trigger/shutdown channel, no DB change, no handler of an operation not marked x-read-only reached; read-only operations answer identically in both modes; a request with a query component is answered like the same method and path without it; same verdict under every map order and on repetition; classes = status + who answered + effects, per mode",
 		Assumptions: []string{
 			"the request reaches the router as net/http's ReadRequest parses it (the server's own parser); request lines it refuses never reach the router and are counted as a class",
@@ -498,6 +498,29 @@ func c18() *report.Check {
 			c18OnFirst = c.Shard%2 == 1
 			w := newC18World()
 			w.sanity(c)
+			// requests to what the same HTTP service offers outside the document (the
+			// published document itself, metrics, the root): they are no operations, but
+			// serving them must not change any later decision either
+			if c.Shard < 2 {
+				for _, target := range []string{"/api.json", "/api.json?pretty=1", "/metrics", "/", "/v1", "/v1/", "/favicon.ico", "/debug/pprof/"} {
+					for _, m := range []string{"GET", "HEAD", "POST", "OPTIONS"} {
+						r := apix.Request{Method: m, Target: target}
+						off, on, _ := w.serve(r)
+						c.Stats.Evaluations++
+						if sig, msg := w.judge(r, off, on); sig != "" {
+							c.Violation(sig, "[outside the document]\n"+msg, c18Replay{Request: r, Oracle: "judge"})
+						}
+						for _, t := range w.templates {
+							if sig, msg, then := w.history(r, t); sig != "" {
+								c.Violation(sig, fmt.Sprintf("[request outside the document, then %s]\n%s", t, msg), c18Replay{Request: r, Then: &then, Oracle: "history"})
+								c.Stats.Class("VIOLATION " + sig)
+								break
+							}
+						}
+						c.Stats.Class("outside the document, writes off: " + w.outcome(r, off))
+					}
+				}
+			}
 			if c.Shard == 0 {
 				var ops []string
 				for _, o := range w.ops {
